@@ -23,6 +23,7 @@ from _griffe.docstrings.models import (
     DocstringSectionText,
 )
 from _griffe.docstrings.utils import docstring_warning
+from _griffe.exceptions import AliasResolutionError, CyclicAliasError
 
 if TYPE_CHECKING:
     from _griffe.expressions import Expr
@@ -264,7 +265,7 @@ def _read_attribute(
         annotation = parsed_attribute_type
     else:
         # try to use the annotation from the parent
-        with suppress(AttributeError, KeyError, TypeError, ValueError):
+        with suppress(AttributeError, KeyError, TypeError, ValueError, AliasResolutionError, CyclicAliasError):
             # Use subscript syntax to fetch annotation from inherited members too.
             annotation = docstring.parent[name].annotation  # type: ignore[index]
     if name in parsed_values.attributes:
